@@ -82,6 +82,11 @@ let opt_k a b = min (const "MAXKAY") (max 1 (int_of_float (0.75 *. float (1 + lo
 let m4ri_auto_k nrows ncols =
   let k = min 7 (opt_k nrows ncols) in
   if k > 1 && 0.75 *. float (1 lsl k) *. float ncols > float (const "L3") /. 2.0 then k - 1 else k
+(* ple_russian.c:391-402 (k == 0 of _mzd_ple_russian) *)
+let ple_auto_k (x : mat) =
+  let k = int_of_float (Float.log2 (float (const "L2" / 8) /. float (max 1 (width_of x)) /. 7.0)) in
+  let klog = int_of_float (Float.round (0.75 *. float (log2_floor (min (nri x) (nci x))))) in
+  clamp 2 8 (if klog < k then klog else k)
 (* triangular_russian.c:55-66 / 209-219 *)
 let trsm_auto_k (b : mat) =
   let k = int_of_float (Float.log2 (float (const "L2" / 8) /. float (max 1 (width_of b)) /. 8.0)) in
@@ -281,6 +286,13 @@ let dispatch_ext (op : string) (a : string array) : unit =
     let x = m 1 in
     let kk = if i 2 = 0 then m4ri_auto_k (nri x) (nci x) else i 2 in
     k.set_mat a.(1) (tb_opt (x_tb_top (ni kk) x))
+  (* ------------------------------------------------------------------ Tier B: C03 *)
+  | "tb__ple_russian" | "tb__pluq_russian" ->
+    (* _ple_russian A P Q k : the lazy pivot search on the window, the 1..7 tables with M / E / B, k as in C *)
+    let x = m 1 in
+    let kk = if i 4 = 0 then ple_auto_k x else i 4 in
+    let f = if op = "tb__ple_russian" then x_tb_ple_russian else x_tb_pluq_russian in
+    put_ple (a.(1), a.(2), a.(3)) (f (ni kk) x (plist 2) (plist 3))
   (* ------------------------------------------------------------------ Tier B: C04 / C05 *)
   | "tb_trsm_lower_left" | "tb__trsm_lower_left" | "tb_trsm_upper_left" | "tb__trsm_upper_left" ->
     let t = m 1 and b = m 2 in
